@@ -153,6 +153,18 @@ class World:
             if not hasattr(obj, "insertRule"):
                 return "nomethod"
             k, v = lib.call(obj.insertRule, src, a[1] % (len(obj.cssRules) + 2))
+        elif m == "setProperty_object":
+            # a Property object built while errors are only logged (so it may carry what raise mode refuses, e.g. a
+            # priority that is no CSS priority) is handed to setProperty of a declaration that may hold the name
+            mode = self.cu.log.raiseExceptions
+            self.cu.log.raiseExceptions = False
+            try:
+                k, prop = lib.call(self.cu.css.Property, a[0], a[1], a[2])
+            finally:
+                self.cu.log.raiseExceptions = mode
+            if k != "ok":
+                return "noobject"
+            k, v = lib.call(obj.setProperty, prop)
         elif m == "insert_ns_object":
             rule = self.cu.css.CSSNamespaceRule(namespaceURI=a[1], prefix=a[0])
             k, v = lib.call(obj.insertRule, rule, a[2] % (len(obj.cssRules) + 2))
@@ -374,6 +386,9 @@ def gen_op(r, w, i):
     if choice == "style.cssText":
         d, where = parts_with_abort(r, G.declaration, G.bad_declaration, abort, "; ")
         return {"op": "mut", "t": "style", "kind": r.choice(["STYLE_RULE", "PAGE_RULE", "FONT_FACE_RULE"]), "i": i_, "m": "set:cssText", "a": [d], "abort": where}
+    if choice == "style.setProperty" and r.random() < 0.3:
+        n, vals = r.choice(G.PROPS)
+        return {"op": "mut", "t": "style", "kind": "STYLE_RULE", "i": i_, "m": "setProperty_object", "a": [n, r.choice(vals), r.choice(["", "important", "!ie", "!bogus", "!IMPORTANT", "ie"] if abort else ["", "important", "!important"])], "abort": "immediately" if abort else None}
     if choice == "style.setProperty":
         n, vals = r.choice(G.PROPS)
         return {"op": "mut", "t": "style", "kind": "STYLE_RULE", "i": i_, "m": "setProperty", "a": [n, r.choice(["1;2", "(", "red }", "a: b"]) if abort else r.choice(vals), r.choice(["", "important", "bogus" if abort else ""])], "abort": "immediately" if abort else None}
